@@ -176,6 +176,7 @@ impl Property<'_> {
                     | PropertyIdentifier::CorrelationData
                     | PropertyIdentifier::UserProperty,
             ) | (PropertyContext::Publish, PropertyIdentifier::TopicAlias)
+                | (PropertyContext::Will, PropertyIdentifier::WillDelayInterval)
                 | (
                     PropertyContext::Subscribe,
                     PropertyIdentifier::SubscriptionIdentifier | PropertyIdentifier::UserProperty,
